@@ -325,6 +325,11 @@ def fold(op, a, b, t):
 
 
 # ------------------------------------------------------------------------------------------ translation
+OUTPUT_CALLS = ("ly_print_", "ly_write_")
+# libc functions that stay MODELLED (named externals: their Lean meaning is a definition of LyModel/C/Sem.lean, C locale)
+EXTERNALS = {"iscntrl": ("C.iscntrl", [I32], I32), "isdigit": ("C.isdigit", [I32], I32)}
+
+
 class Sig:
     """what callers need to know about a translated function"""
     def __init__(self, name, lean, params, ret, outs):
@@ -339,6 +344,7 @@ class Unit:
         self.tables = {}                    # C name -> (lean name, elem type, values)
         self.assumptions = []
         self.defs = []                      # Lean text of the definitions, in order
+        self.uses_check_ret = False
 
     def assume(self, s):
         if s not in self.assumptions:
@@ -428,6 +434,11 @@ class Fn:
                 self.params.append(("...", "va"))
                 continue
             const = "const" in ws
+            if [w for w in ws if w != "const"] == ["struct", "ly_out"] and stars == 1:
+                # output stream: modelled as the list of bytes written so far (memory stream; I/O errors are outside the model)
+                self.vars[name] = dict(kind="ostream", lean=lname(name))
+                self.params.append((name, "ostream"))
+                continue
             t = type_of_words(ws)
             if stars == 0:
                 if t is None: raise Refuse("void parameter")
@@ -521,6 +532,7 @@ class Fn:
         if k == "out": return "Option " + v["t"].lean if v["nullable"] else v["t"].lean
         if k in ("ptr",): return "Nat"
         if k in ("va", "valist"): return "List Int32"
+        if k == "ostream": return "List UInt8"
         raise Refuse("type of " + name)
 
     def state_vars(self):
@@ -777,6 +789,13 @@ class Fn:
         f = e[1][1]
         if f == "va_arg":
             raise Refuse("va_arg outside `x = va_arg(ap, int);`")
+        if f in EXTERNALS and f not in self.u.funcs:
+            ln, ats, rt = EXTERNALS[f]
+            if len(e[2]) != len(ats): raise Refuse("call of %s with %d arguments" % (f, len(e[2])))
+            self.u.assume("%s: libc `%s` is the modelled function `%s` (C locale)" % (self.name, f, ln))
+            return E("(%s %s)" % (ln, " ".join(paren(conv(self.ex(a), t).text) for a, t in zip(e[2], ats))), rt)
+        if f in OUTPUT_CALLS:
+            raise Refuse("%s inside an expression (only `%s(…);` and `x = %s(…);` are supported)" % (f, f, f))
         sig = self.u.funcs.get(f)
         if sig is None: raise Refuse("call of %s, which is not a translated function" % f)
         if sig.outs: raise Refuse("call of %s, which has output parameters, inside an expression" % f)
@@ -863,6 +882,8 @@ class Fn:
                 res.add(self.lv_root(e[2]))
             elif e[0] == "call" and e[1] == ("id", "va_arg"):
                 res.add(self.vars[e[2][0][1]]["lean"])
+            elif e[0] == "call" and e[1][0] == "id" and e[1][1] in OUTPUT_CALLS and e[2] and e[2][0][0] == "id" and e[2][0][1] in self.vars:
+                res.add(self.vars[e[2][0][1]]["lean"])
             else:
                 for y in e[1:]:
                     if isinstance(y, tuple): expr(y)
@@ -938,6 +959,7 @@ class Fn:
             if kind == "cursor": res.append((v["pos"], v["pos"], "Nat"))
             elif kind == "out": res.append((v["lean"], v["lean"], self.lean_type(n)))
             elif kind == "buf" and v["writable"] and v["lean"] in self.stored: res.append((v["lean"], v["lean"], self.lean_type(n)))
+            elif kind == "ostream": res.append((v["lean"], v["lean"], "List UInt8"))
         return res
 
     def join(self, k_lines, changed):
@@ -1049,6 +1071,8 @@ class Fn:
                     raise Refuse("va_arg of a type other than int")
                 val = conv(E("(%s.headD 0)" % ap["lean"], I32), v["t"])
                 return [self.let(v["lean"], v["t"].lean, val.text), self.let(ap["lean"], "List Int32", "%s.tail" % ap["lean"])]
+            if op == "=" and rhs[0] == "call" and rhs[1][0] == "id" and rhs[1][1] in OUTPUT_CALLS:
+                return self.output_call(rhs) + [self.let(v["lean"], v["t"].lean, conv(E("0", I32, 0), v["t"]).text)]
             cur = E(v["lean"], v["t"])
             val = self.rhs_value(cur, op, rhs, v["t"])
             return [self.let(v["lean"], v["t"].lean, val.text)]
@@ -1092,6 +1116,57 @@ class Fn:
             r = E("(%s %s %s)" % (conv(cur, ut).text, ARITH[o], conv(b, ut).text), ut)
         return conv(r, t)
 
+    def lit_bytes(self, e):
+        if e[0] != "str": raise Refuse("string literal expected")
+        return e[1]
+
+    def fmt_text(self, fmt, args):
+        """Lean text of the bytes `ly_print_(out, fmt, args…)` appends"""
+        if fmt[0] == "?:":
+            if args: raise Refuse("conditional format with arguments")
+            a, b = self.lit_bytes(fmt[2]), self.lit_bytes(fmt[3])
+            if b"%" in a or b"%" in b: raise Refuse("conditional format with conversions")
+            return "(if %s then %s else %s)" % (self.cond(fmt[1]), list(a), list(b))
+        f = self.lit_bytes(fmt)
+        parts, i, args = [], 0, list(args)
+        lit = bytearray()
+        while i < len(f):
+            if f[i:i + 1] != b"%":
+                lit.append(f[i]); i += 1; continue
+            if f[i:i + 2] == b"%%":
+                lit.append(37); i += 2; continue
+            m = re.match(rb"%\.(\d)X", f[i:])
+            if m:
+                if not args: raise Refuse("format argument missing")
+                x = self.ex(args.pop(0))
+                if promote(x.t).bits != 32: raise Refuse("%X with a 64-bit argument")
+                if lit: parts.append(str(list(lit))); lit = bytearray()
+                parts.append("C.fmtX %d %s" % (int(m.group(1)), paren(conv(x, U32).text)))
+                i += m.end(); continue
+            raise Refuse("format conversion %r" % f[i:i + 6])
+        if args: raise Refuse("too many format arguments")
+        if lit or not parts: parts.append(str(list(lit)))
+        return " ++ ".join(parts)
+
+    def output_call(self, e):
+        """`ly_print_(out, fmt, …)` / `ly_write_(out, p, n)` -> lines appending to the stream variable"""
+        f, args = e[1][1], e[2]
+        if not args or args[0][0] != "id" or self.vars.get(args[0][1], {}).get("kind") != "ostream":
+            raise Refuse("%s: the first argument is not an output stream parameter" % f)
+        o = self.vars[args[0][1]]["lean"]
+        self.u.assume("%s: `%s` appends to a memory stream and returns LY_SUCCESS (I/O and allocation failures are outside the model)" % (self.name, f))
+        if f == "ly_print_":
+            if len(args) < 2: raise Refuse("ly_print_ without a format")
+            return [self.let(o, "List UInt8", "%s ++ %s" % (o, self.fmt_text(args[1], args[2:])))]
+        if len(args) != 3: raise Refuse("ly_write_ arguments")
+        n = self.ex(args[2])
+        if args[1][0] == "str":
+            b = args[1][1]
+            if n.const is None or n.const > len(b): raise Refuse("ly_write_ of a literal with a non-constant or too large length")
+            return [self.let(o, "List UInt8", "%s ++ %s" % (o, list(b[:n.const])))]
+        p = self.pv(args[1])
+        return [self.let(o, "List UInt8", "%s ++ C.rdn %s %s %s" % (o, self.buf_text(p), paren(p.off), paren(to_nat(n))))]
+
     def incdec(self, target, op):
         one = ("num", 1, "", False)
         return self.assign(target, "+=" if op == "++" else "-=", one)
@@ -1115,6 +1190,8 @@ class Fn:
                 return [self.let(ap["lean"], "List Int32", "va")]
             if f == "va_end":
                 return []
+            if f in OUTPUT_CALLS:
+                return self.output_call(e)
         if k == "cast" and e[1] == ["void"]:
             return []
         raise Refuse("expression statement " + k)
@@ -1124,7 +1201,13 @@ class Fn:
         if kind == "block":
             return self.tr_list(s[1], k)
         if kind == "expr":
-            return self.tr_expr_stmt(s[1]) + k.next
+            e = s[1]
+            if e[0] == "call" and e[1] == ("id", "LY_CHECK_RET") and len(e[2]) == 1:
+                # #define LY_CHECK_RET1(RETVAL) {LY_ERR ret__ = RETVAL; if (ret__ != LY_SUCCESS) {return ret__;}}   (shape checked by the extractor)
+                if e[2][0][0] != "id": raise Refuse("LY_CHECK_RET of an expression with side effects")
+                self.u.uses_check_ret = True
+                return self.tr_stmt(("if", ("bin", "!=", e[2][0], ("num", 0, "", False)), ("return", e[2][0]), None), k)
+            return self.tr_expr_stmt(e) + k.next
         if kind == "decl":
             lines = []
             for (n, arr, init) in s[1]:
@@ -1454,7 +1537,7 @@ class Fn:
             for _ in g: self.guards.pop()
         text = ["if %s then" % c] + ind(b) + ["else"] + ind(exit_)
         used = idents(text)
-        ro = [v for v in av if v in used and v not in state]
+        ro = [v for v in av if v in used and v not in state and v not in inner]
         ro.sort()
         call = lambda f: "%s %s" % (ln, " ".join(ro + [f] + state))
         text = [l.replace(REC, call("fuel")) for l in text]
